@@ -9,6 +9,7 @@ from buidl.script import (P2PKHScriptPubKey, P2WPKHScriptPubKey, RedeemScript, S
 from buidl.tx import Tx, TxIn, TxOut
 
 from vf.core import Discard, Sub, attempt, must, require
+from vf.gen import rand_bytes
 from vf.ref import ec, psbtmap, sighash, txser
 
 RULE = (
@@ -62,7 +63,7 @@ def flow_cases(draw):
                        max_size=2, unique_by=lambda t: (t[0], t[1]))
     return {
         "kind": kind, "m": m, "n": n, "n_in": n_in, "subset": subset,
-        "seeds": draw(st.lists(st.binary(min_size=16, max_size=16), min_size=n, max_size=n, unique=True)),
+        "seeds": list(draw(st.tuples(*[rand_bytes(16) for _ in range(4)]))[:n]),
         "h1": history(), "h2": history(),
         "amounts": draw(st.lists(st.integers(20000, 10**9), min_size=3, max_size=3)),
         "prev_index": draw(st.lists(st.integers(0, 2), min_size=3, max_size=3)),
